@@ -22,7 +22,7 @@ EXTRA_IMPORTS = dispenv.DISP_IMPORTS + 'From PJ Require Import Model.Cache.\n'
 RULE = ('(a) histories of length 1..2 (quick) / 1..3 (thorough) over a request corpus followed by a probe, on the standard configuration '
         '(compared with the probe on a fresh dispatcher AND with the stateless dispatcher model) and on a rich configuration - the same function '
         'registered twice with different context designations, parameterless methods with and without a context, two same-named '
-        'functions under one PydanticValidator, a JsonSchemaValidator, a class-based view with context, methods that raise, generic and per-code error handlers - where every ordered pair / triple '
+        'functions under one PydanticValidator, two functions under it whose signatures differ only in equal-comparing defaults (1 / True), a JsonSchemaValidator, a class-based view with context, methods that raise, generic and per-code error handlers - where every ordered pair / triple '
         'of requests is replayed; both dispatchers. (b) N in {1, 10, 300} (quick) / {1, 10, 1000} (thorough) dispatches with a fresh '
         'context object each, for function methods, view methods, each validator and FAILING requests (method raises / protocol error / unknown method / schema violation): growth of the signature / schema memo tables and '
         'weak references to the contexts after gc.collect(). (c) thread pools of 2, 8, 16 threads serving an interleaved corpus vs serving '
@@ -77,6 +77,15 @@ def rich_dispatcher(is_async):
         exec('@pdv.validate\ndef get(id: %s):\n    return ["get", "%s", id]\n' % (ann, ann), ns)
         return ns['get']
 
+    # two functions under the one PydanticValidator whose signatures differ only in defaults that compare equal (1 == True)
+    @pdv.validate
+    def opt_a(n=1):
+        return ['opt', repr(n)]
+
+    @pdv.validate
+    def opt_b(n=True):
+        return ['opt', repr(n)]
+
     @jsv.validate(schema={'type': 'object', 'properties': {'n': {'type': 'integer', 'minimum': 0}}, 'required': ['n']})
     def sized(n, tag='t'):
         return ['sized', n, tag]
@@ -98,6 +107,8 @@ def rich_dispatcher(is_async):
     d.add(mk_get('int'), name='user.get')
     d.add(mk_get('str'), name='doc.get')
     d.add(sized)
+    d.add(opt_a, name='opt.a')
+    d.add(opt_b, name='opt.b')
     reg = MethodRegistry()
     reg.view(View, context='ctx', prefix='v')
     d.add_methods(reg)
@@ -113,6 +124,7 @@ RICH_CORPUS = [
     {'method': 'sized', 'params': {'n': 1}}, {'method': 'sized', 'params': {'n': -1}}, {'method': 'sized', 'params': [1, 'x']},
     {'method': 'v.show', 'params': [1]}, {'method': 'v.show'}, {'method': 'nosuch'}, {'method': 'ping', 'params': {}},
     {'method': 'boom'}, {'method': 'boom', 'params': [1]}, {'method': 'perr'}, {'method': 'perr', 'params': [1]},
+    {'method': 'opt.a'}, {'method': 'opt.b'}, {'method': 'opt.b', 'params': [2]},
 ]
 
 
@@ -223,8 +235,8 @@ def observe(case):
                 bad += 1
             if MEM_KEYS[name] is not None:
                 keys.append(MEM_KEYS[name])
-            if name in ('user.get', 'doc.get'):
-                # PydanticValidator.build_validation_schema memoises one entry per distinct signature as well
+            if name in ('user.get', 'doc.get') and hasattr(pd_validator.PydanticValidator.build_validation_schema, 'cache_info'):
+                # PydanticValidator.build_validation_schema, where it is memoised, holds one entry per distinct signature as well
                 k = MEM_KEYS[name]
                 keys.append((k[0], 100 + k[1], k[2], k[3]))
             del c
